@@ -37,7 +37,9 @@ Diff(e, st, x) ==
   \cup (IF e.post.rip # x.rip THEN {"rip"} ELSE {})
 
 Judge(e, st, x) ==
-  IF x.out = "fault" THEN (IF e.out \in {"err", "fault"} THEN {} ELSE IF e.out = "ok" THEN {"out-missing-fault"} ELSE {"out-" \o e.out})
+  IF x.out = "fault" THEN (IF e.out \in {"err", "fault"}
+                           THEN (IF e.i.m \in {"push", "pop", "call", "ret"} /\ e.left # <<>> THEN {"fault-moved-state"} ELSE {})   \* C04: a refused stack access moves nothing
+                           ELSE IF e.out = "ok" THEN {"out-missing-fault"} ELSE {"out-" \o e.out})
   ELSE IF e.out = "ok" THEN Diff(e, st, x)
   ELSE IF e.out = "err" THEN {"out-spurious-error"}
   ELSE {"out-" \o e.out}
